@@ -11,7 +11,7 @@ def _lenient(reader, fallback):
         pos = f.tell()
         try:
             return reader(f)
-        except (UnicodeDecodeError, UnicodeEncodeError):
+        except (UnicodeDecodeError, UnicodeEncodeError, ValueError):     # incl. escape_decode's complaints
             f.seek(pos)
             return fallback(f)
     return r
